@@ -373,21 +373,21 @@ ADDED = {
     "C03": "the same families as C02 judged by the reference parser; chains reaching the top of the option-number space",
     "C04": "inconsistent header TKL and enum-variant codes judged by self-consistency (limited call succeeds, with the same bytes, iff the serialiser's own unlimited output fits), spare-capacity vectors, oversize values under huge limits",
     "C05": "observe action read from GET and FETCH requests over every encoding of 0..5 bytes with other options alongside; header packing in every setter order",
-    "C06": "context packets (all code classes / types / token lengths), meaningful values (protocol defaults), special strings (BOM, non-characters, separators ...) through codec and message accessors, congruent option keys coming and going",
-    "C07": "bare messages for every code byte, replies pre-populated with 700-1400 bytes of options / Observe / equal Block1, taken responses, diagnostics up to 70 kB, replies that already look like the error reply (same code + text/plain + an equally long but different payload, from an earlier error or from the application)",
-    "C08": "sessions of several transfers on one key, busy server (70..2500 other requests between blocks, 14/100 open transfers of other clients), neighbour noise on confusable keys, crossing pending requests with the same message id, stale resume attempts, single Block1 repeated on follow-ups, long multi-byte paths, application replies with codes other than 2.05 (2.01/2.03/2.04, 4.xx/5.xx with long diagnostics)",
-    "C09": "abandoned uploads with shared prefixes / Size1 announcements / other block sizes, a refused whole-body first try, uploads alternating with the fetch of an older block-wise reply, number echo required in-domain, methods POST/PUT/FETCH/PATCH/iPATCH",
-    "C10": "edge-of-fragmentation bodies, later upload blocks with more options, sessions judged on budget clauses, late block after completion with grown overhead, deep resume into a 2.2 MB body, over-budget replies under error / non-2.05 codes without a client preference",
+    "C06": "context packets (all code classes / types / token lengths), meaningful values (protocol defaults), special strings (BOM, non-characters, separators ...) through codec and message accessors, strings of 12..200 000 bytes around every length threshold, congruent option keys coming and going",
+    "C07": "bare messages for every code byte, replies pre-populated with 700-1400 bytes of options / Observe / equal Block1, taken responses, diagnostics up to 70 kB, replies that already look like the error reply (same code + text/plain + an equally long but different payload, from an earlier error or from the application), Size2 on request and reply",
+    "C08": "sessions of several transfers on one key, busy server (70..2500 other requests between blocks, 14/100 open transfers of other clients), neighbour noise on confusable keys, crossing pending requests with the same message id, stale resume attempts, single Block1 repeated on follow-ups, long multi-byte paths, application replies with codes other than 2.05 (2.01/2.03/2.04, 4.xx/5.xx with long diagnostics), Observe among the reply options",
+    "C09": "abandoned uploads with shared prefixes / Size1 announcements / other block sizes, a refused whole-body first try, uploads alternating with the fetch of an older block-wise reply, number echo required in-domain, methods POST/PUT/FETCH/PATCH/iPATCH, Block2 preference stated on non-final upload blocks",
+    "C10": "edge-of-fragmentation bodies, later upload blocks with more options, sessions judged on budget clauses, late block after completion with grown overhead, deep resume into a 2.2 MB body, over-budget replies under error / non-2.05 codes without a client preference, fresh replies re-rendered for an earlier request (intercept_response alone)",
     "C11": "ladders around buffer+16 KiB, size announcements, text bloat in path/query options (multi-byte at every alignment, invalid UTF-8), newer option numbers with odd lengths; hook reads guarded",
-    "C12": "50+ path-pair sets (segmentation, empty segments, case, query, hash collisions, percent escapes, length-prefix wrap, boundary shifts, non-UTF-8 segments, resuming GET next to POST), conservation of keys (100 000 / 250 000 distinct keys leave as many entries)",
+    "C12": "50+ path-pair sets (segmentation, empty segments, case, query, hash collisions, percent escapes, length-prefix wrap, boundary shifts, non-UTF-8 segments and twins equal under lossy conversion, resuming GET next to POST), conservation of keys (100 000 / 250 000 distinct keys leave as many entries)",
     "C13": "constructor independent of history: ordered pairs, runs of consecutive blocks, a decode right before, a refused handler call on the same thread, and cold-start probes in fresh processes",
     "C14": "token families, limit changes as operations, acknowledgements with any token / message shape, CON and NON registrations, long-lived acknowledging observers across the message-id wrap, conservation of resources (400 000 paths)",
     "C15": "as C14, with the counters compared through the hooks and by replay-and-probe",
     "C16": "number-like texts and registry numbers under numeric keys, edge white space of every kind, wide values up to 20 000 bytes, RFC 8187 extended values",
     "C17": "quoted-value walk over line breaks / tabs / escapes, dictionary strings, long documents (200 000 / 2 000 000 repetitions of one unit), the unoptimised dbg0 lane",
-    "C18": "numeric attributes under every key, texts of 1023..9000 bytes in every position, per-link finish() called / dropped / alternating, unrepresentable targets, extended values",
+    "C18": "numeric attributes under every key, texts of 1023..9000 bytes in every position, per-link finish() called / dropped / alternating, unrepresentable targets, extended values, documents of 65..520 links",
     "C19": "iterator protocol on both generic views, set_path differential over raw prior states, other URI options next to Uri-Path, observe accessor on any code byte and method, context packets",
-    "C20": "expiry inside the application callback, neighbour traffic on confusable keys answered 2.02 / 2.04 / 2.01 / 2.03 / 4.04, crossing requests at download start, Max-Age on cached replies, long-lived handler generations, refused reclamation probes, conservation of keys",
+    "C20": "expiry inside the application callback, neighbour traffic on confusable keys answered 2.02 / 2.04 / 2.01 / 2.03 / 4.04, refused requests of the observed endpoint on other keys, crossing requests at download start, Max-Age on cached replies, long-lived handler generations, refused reclamation probes, conservation of keys",
 }
 for _pid, _txt in ADDED.items():
     PLAN[_pid]["rule"] = PLAN[_pid]["rule"] + " | added during the seeding rounds: " + _txt
